@@ -38,7 +38,7 @@ TOL = 1e-9
 
 
 def cases(rng, tier):
-    n = {'quick': 260, 'thorough': 3000, 'search': 300}[tier]
+    n = {'quick': 520, 'thorough': 3000, 'search': 300}[tier]
     out = []
     for k in range(n):
         out.append({'seed': rng.getrandbits(30), 'cls': rng.choice(['mps', 'mps', 'mpo']), 'mode': rng.choice(['left', 'right']),
@@ -48,7 +48,7 @@ def cases(rng, tier):
                     'rankdef': rng.random() < 0.3, 'Dmax': rng.choice([1, 2, 3, 5])})
     # additional MPO stream with charged bonds (bond charges drawn from the differences qd[s] - qd[t], so that off-diagonal
     # blocks s != t are populated); appended after the original stream, which is left unchanged
-    for k in range({'quick': 40, 'thorough': 400, 'search': 40}[tier]):
+    for k in range({'quick': 80, 'thorough': 400, 'search': 40}[tier]):
         out.append({'seed': rng.getrandbits(30), 'cls': 'mpo', 'mode': rng.choice(['left', 'right']), 'L': rng.choice([1, 2, 2, 3, 3, 4]),
                     'd': rng.choice([2, 2, 3]), 'qclass': 'charged', 'dtype': rng.choice(['complex', 'real']), 'entries': rng.choice(['float', 'int']),
                     'connected': True, 'rankdef': False, 'Dmax': rng.choice([2, 3]), 'charged': True})
